@@ -21,46 +21,46 @@ const (
 
 // One line of reason per entry (the reading behind it is in DESIGN.md §3.1).
 var fieldClassTable = map[string]FieldClass{
-	"Statement.statements":    Containment, // parser appends each child once to its one parent
-	"Entry.Dir":               Containment, // child map; TREE.PARENT/FRESH keep it a tree
-	"Entry.RPC":               Containment, // rpc holder owned by its entry
-	"RPCEntry.Input":          Containment,
-	"RPCEntry.Output":         Containment,
-	"Entry.Augments":          Containment, // augment entries owned by the declaring module entry
-	"Entry.Deviations":        Containment,
-	"Entry.Deviate":           Containment,
-	"DeviatedEntry.Entry":     Containment,
-	"YangType.Type":           Containment, // union members built fresh per use site
-	"iw.w":                    Containment, // a writer wraps an older writer
-	"Entry.Parent":            Inverse,
-	"Identity.Values":         Reference, // filled by name resolution of `base`; cyclic on cyclic input
-	"Import.Module":           Reference,
-	"Include.Module":          Reference,
-	"Module.Modules":          Reference,
-	"Typedef.YangType":        Reference,
-	"Type.YangType":           Reference,
-	"YangType.Base":           Reference,
-	"YangType.Root":           Reference,
-	"YangType.IdentityBase":   Reference,
-	"Entry.Node":              Reference,
-	"Entry.Type":              Reference,
-	"UsesStmt.Grouping":       Reference,
-	"UsesStmt.Uses":           Reference,
-	"Entry.Augmented":         Reference,
-	"Entry.Identities":        Reference,
-	"Entry.Uses":              Reference,
-	"resolvedIdentity.Module": Reference,
+	"Statement.statements":      Containment, // parser appends each child once to its one parent
+	"Entry.Dir":                 Containment, // child map; TREE.PARENT/FRESH keep it a tree
+	"Entry.RPC":                 Containment, // rpc holder owned by its entry
+	"RPCEntry.Input":            Containment,
+	"RPCEntry.Output":           Containment,
+	"Entry.Augments":            Containment, // augment entries owned by the declaring module entry
+	"Entry.Deviations":          Containment,
+	"Entry.Deviate":             Containment,
+	"DeviatedEntry.Entry":       Containment,
+	"YangType.Type":             Containment, // union members built fresh per use site
+	"iw.w":                      Containment, // a writer wraps an older writer
+	"Entry.Parent":              Inverse,
+	"Identity.Values":           Reference, // filled by name resolution of `base`; cyclic on cyclic input
+	"Import.Module":             Reference,
+	"Include.Module":            Reference,
+	"Module.Modules":            Reference,
+	"Typedef.YangType":          Reference,
+	"Type.YangType":             Reference,
+	"YangType.Base":             Reference,
+	"YangType.Root":             Reference,
+	"YangType.IdentityBase":     Reference,
+	"Entry.Node":                Reference,
+	"Entry.Type":                Reference,
+	"UsesStmt.Grouping":         Reference,
+	"UsesStmt.Uses":             Reference,
+	"Entry.Augmented":           Reference,
+	"Entry.Identities":          Reference,
+	"Entry.Uses":                Reference,
+	"resolvedIdentity.Module":   Reference,
 	"resolvedIdentity.Identity": Reference,
-	"ErrorNode.Parent":        Inverse,
-	"Modules.Modules":         Reference, // name → module map: a lookup
-	"Modules.SubModules":      Reference,
-	"Modules.byNS":            Reference,
-	"Modules.entryCache":      Reference,
-	"typeDictionary.dict":     Reference,
-	"identityDictionary.dict": Reference,
-	"parser.lex":              Containment,
-	"parser.hitBrace":         Containment,
-	"Modules.typeDict":        Containment,
+	"ErrorNode.Parent":          Inverse,
+	"Modules.Modules":           Reference, // name → module map: a lookup
+	"Modules.SubModules":        Reference,
+	"Modules.byNS":              Reference,
+	"Modules.entryCache":        Reference,
+	"typeDictionary.dict":       Reference,
+	"identityDictionary.dict":   Reference,
+	"parser.lex":                Containment,
+	"parser.hitBrace":           Containment,
+	"Modules.typeDict":          Containment,
 	"typeDictionary.identities": Containment,
 }
 
